@@ -1,5 +1,6 @@
 """C05 - checkout never destroys user data that is not recoverable from the cache."""
 
+from props import _objcheckout_audit as A
 from props import _objcheckout_common as C
 from props import _objcheckout_kind as K
 from props import _objcheckout_links as L
@@ -45,6 +46,7 @@ def run(ctx):
     if C.INCLUDE_DANGLING:
         streams.append(("dangling", ctx.n(10, 100)))
     items = C.run_stream(ctx, streams, "C05")
+    items.extend(A.run_audit(ctx, "C05"))                   # tools/COVERAGE_AUDIT.md: every dimension, every run
     for case in CORPUS:                                     # regression inputs, always run
         case = dict(case, contents=dict(C.CONTENT_POOL))
         r = C.run_case(ctx, case)
